@@ -432,8 +432,11 @@ class BaseCollection(BaseDisplayRepr):
             recursive=recursive,
         )
         for child in remove_objects:
-            if child in self_objects and rec_obj_remover(self, child):
-                child._parent = None
+            if child in self_objects:
+                # the child can be gone already: given twice, or removed together with a
+                # collection that was given earlier in the same call
+                if rec_obj_remover(self, child):
+                    child._parent = None
             else:
                 if errors == "raise":
                     raise MagpylibBadUserInput(
